@@ -49,6 +49,8 @@ struct Stats {
     /// although the ring has room, for connections whose ring cannot grow
     waiting_writer_with_room: AtomicU64,
     lost_wakeups: AtomicU64,
+    waiting_reader_with_data: AtomicU64,
+    rx_snapshots_checked: AtomicU64,
     last_snaps: parking_lot::Mutex<std::collections::BTreeMap<String, Vec<String>>>,
     deaths_with_error: AtomicU64,
     first_death: parking_lot::Mutex<Option<String>>,
@@ -430,6 +432,7 @@ fn main() -> std::process::ExitCode {
         }));
     }
     let check_waiting = profile == 2;
+    let check_reader = profile != 3;
     // (profile 3 polls with fresh wakers all the time: a registered waker next to free space is then
     // the harness' doing between two of its polls, the snapshot rule does not apply)
     {
@@ -474,6 +477,22 @@ fn main() -> std::process::ExitCode {
                                 "lost wake-up: connection task of {}->{} registered as waiting for the writer with {} bytes in the ring (state {})",
                                 id.local, id.remote, snap.tx.ring_len, snap.state
                             ));
+                        }
+                    }
+                    // Reading side, same shape: the reader registers its waker only when it found
+                    // the queue empty (under the lock); the connection task queues data and takes
+                    // the waker before its poll ends. At the end of a poll a registered reader next
+                    // to queued items never shows. (Not with readers that poll with fresh wakers
+                    // all the time - profile 3.)
+                    if check_reader {
+                        st.rx_snapshots_checked.fetch_add(1, Ordering::Relaxed);
+                        if snap.rx.reader_waker_set && snap.rx.queue_items > 0 && !snap.rx.reader_dropped {
+                            if st.waiting_reader_with_data.fetch_add(1, Ordering::Relaxed) == 0 {
+                                st.problem(format!(
+                                    "lost wake-up: reader of {}->{} registered as waiting with {} items ({} bytes) queued (state {})",
+                                    id.local, id.remote, snap.rx.queue_items, snap.rx.queue_len_bytes, snap.state
+                                ));
+                            }
                         }
                     }
                     if check_waiting {
@@ -699,7 +718,7 @@ fn main() -> std::process::ExitCode {
         "panic"
     } else if mism > 0 {
         "content-mismatch"
-    } else if stats.waiting_writer_with_room.load(Ordering::Relaxed) > 0 || stats.lost_wakeups.load(Ordering::Relaxed) > 0 || stats.waiting_dispatcher_with_data.load(Ordering::Relaxed) > 0 {
+    } else if stats.waiting_writer_with_room.load(Ordering::Relaxed) > 0 || stats.lost_wakeups.load(Ordering::Relaxed) > 0 || stats.waiting_dispatcher_with_data.load(Ordering::Relaxed) > 0 || stats.waiting_reader_with_data.load(Ordering::Relaxed) > 0 {
         "lost-wakeup"
     } else if !all_joined {
         "stall"
@@ -746,6 +765,8 @@ fn main() -> std::process::ExitCode {
         ("spin_flushes_completed", stats.spin_flushes.load(Ordering::Relaxed).to_string()),
         ("connection_tasks_ended_with_an_error", stats.deaths_with_error.load(Ordering::Relaxed).to_string()),
         ("first_connection_error", match stats.first_death.lock().clone() { Some(e) => format!("\"{}\"", e.replace('"', "'")), None => "null".to_string() }),
+        ("rx_snapshots_checked_for_a_sleeping_reader", stats.rx_snapshots_checked.load(Ordering::Relaxed).to_string()),
+        ("snapshots_with_a_waiting_reader_next_to_queued_data", stats.waiting_reader_with_data.load(Ordering::Relaxed).to_string()),
         ("lost_wakeups", stats.lost_wakeups.load(Ordering::Relaxed).to_string()),
         ("tx_snapshots_checked_for_lost_wakeups", stats.tx_snapshots_checked.load(Ordering::Relaxed).to_string()),
         ("snapshots_with_a_waiting_writer_next_to_free_space", stats.waiting_writer_with_room.load(Ordering::Relaxed).to_string()),
